@@ -48,6 +48,13 @@ def corpus():
     out.append(S("C8Tup", [F("0", P("u8")), F("1", G.vec(P("string")))], "mutable", tuple_=True))
     out.append(S("C9Bare", [F("o", G.opt(P("u8")))]))
     out.append(S("C10Ids", [F("a", P("u8"), id=5), F("b", P("u8")), F("c", P("u8"), id=2), F("d", P("u8"))], "mutable"))
+    # members that carry several attributes: written combined `#[dust_dds(key, id = 5)]` or split `#[dust_dds(id = 5)] #[dust_dds(key)]`
+    # in any order (gen_common.spell_attrs) -- the same declaration for the macro, which reads every dust_dds attribute (D-gen-14)
+    out.append(S("C11Attrs", [F("a", P("u8"), key=True, id=5), F("b", G.opt(P("u16")), id=9, optional=True), F("c", P("u32"), key=True, hashid=True),
+                              F("d", P("i64"), id=20, nonser=True), F("e", P("string"), key=True, id=30), F("f", G.opt(G.vec(P("u8"))), optional=True, id=31),
+                              F("g", P("i8"), key=True, id=40), F("h", P("bool"), id=41, key=True)], "mutable", rename="Attrs::Split", nested=True))
+    out.append(S("C12Attrs", [F("a", P("u8"), key=True, id=5), F("b", G.opt(P("u16")), optional=True, hashid=True), F("c", P("u32"), key=True, id=7)],
+                 "appendable", rename="Attrs::Two", nested=True, tuple_=True))
     return out
 
 
@@ -75,6 +82,29 @@ def reject_rs(t):
     items = []
     G.rust_decls(t, set(), items)
     return ("#![allow(warnings)]\nuse dust_dds::infrastructure::type_support::DdsType;\n" + "\n".join(items) + "\nfn main() {}\n")
+
+
+def compile_culprits(crate_dir, out, live):
+    """{declaration id: first error message} for the errors rustc reports in src/main.rs"""
+    import re
+    src = open(os.path.join(crate_dir, "src", "main.rs")).read().splitlines()
+    owner = {}
+    for i, (t, _) in live.items():
+        G.walk(t, lambda x, i=i: owner.__setitem__(x["ident"], i) if "ident" in x else None)
+    found = {}
+    lines = out.splitlines()
+    msg = ""
+    for k, l in enumerate(lines):
+        if l.startswith("error"):
+            msg = l[:200]
+        m = re.match(r"\s*--> src/main\.rs:(\d+):", l)
+        if m and msg:
+            text = src[int(m.group(1)) - 1] if int(m.group(1)) <= len(src) else ""
+            for ident in re.findall(r"(?:struct|enum)\s+(\w+)|(?:describe|rt)::<(\w+)>", text):
+                ident = ident[0] or ident[1]
+                if ident in owner:
+                    found.setdefault(owner[ident], msg)
+    return found
 
 
 def corpus_values(g, t):
@@ -213,14 +243,29 @@ def run(ctx):
                 os.remove(G.bin_path(b))
             except OSError:
                 pass
-        d = G.write_crate(f"derive_{ctx.seed}_{c}", "gen_derive", G.derive_main_rs(decls), {b: reject_rs(t) for b, t in rejects.items()})
-        ok, out, secs = G.cargo_build(d, ctx.log, keep_going=True)
-        ctx.count("crate_build_s", int(secs))
-        if not os.path.exists(G.bin_path("gen_derive")):
-            errs = "\n".join(l for l in out.splitlines() if l.startswith("error"))[:3000]
-            ctx.disagreements.append({"what": "the generated crate does not compile: a declaration the model accepts is rejected by the "
-                                              "macro / rustc (or the generator is wrong)", "crate": d, "detail": errs})
-            return
+        live = {i: (t, dict(enumerate(vals))) for i, (t, vals) in enumerate(decls)}
+        pending = []          # reported after the differential run, so that a description / round-trip violation (better replay) comes first
+        for attempt in range(4):
+            d = G.write_crate(f"derive_{ctx.seed}_{c}", "gen_derive", G.derive_main_rs(live), {b: reject_rs(t) for b, t in rejects.items()})
+            ok, out, secs = G.cargo_build(d, ctx.log, keep_going=True)
+            ctx.count("crate_build_s", int(secs))
+            if os.path.exists(G.bin_path("gen_derive")):
+                break
+            # the crate does not compile although the model accepts every declaration in it: find the declarations the errors point at,
+            # report each as a violation (replay = its op lines) and go on without them
+            culprits = compile_culprits(d, out, live)
+            if not culprits or attempt == 3:
+                errs = "\n".join(l for l in out.splitlines() if l.startswith("error"))[:3000]
+                ctx.disagreements.append({"what": "the generated crate does not compile: a declaration the model accepts is rejected by the "
+                                                  "macro / rustc (or the generator is wrong)", "crate": d, "detail": errs})
+                return
+            for i, msg in sorted(culprits.items()):
+                ctx.stats["evaluations"] += 1
+                ctx.count("does-not-compile")
+                pending.append({"what": f"{live[i][0]['ident']}: a declaration of the documented attribute language (accepted by the model) does not "
+                                               f"compile: {msg}", "ops": cases[i].lines})
+                del live[i]
+        cases = [cases[i] for i in sorted(live)]
         # declarations with a repeated member id must be refused by the macro (property: the ids of every accepted type are distinct)
         for b, t in rejects.items():
             ctx.stats["evaluations"] += 1
@@ -233,6 +278,7 @@ def run(ctx):
                 ctx.violations.append({"what": f"{t['ident']}: rejected, but not with the duplicate-member-id diagnostic",
                                        "ops": [f"decl 0 {G.sx(G.ty_sexp(t))}"]})
         ctx.differential("gen_derive", cases, nontrivial=nontrivial, oracle=oracle, model_engine="gen", shrink=False)
+        ctx.violations.extend(pending)
 
 
 LEVEL_TEXT = ("Kernel-checked Lean theorems over ALL declaration trees and ALL values of the model of the macro expansion: "
